@@ -45,6 +45,11 @@ package header
 //@   pure
 //@   ensures result == uint64(eh.RawHeader.Height)
 
+//@ func (*ExtendedHeader).Time
+//@   property C16
+//@   pure
+//@   ensures result == eh.RawHeader.Time
+
 //@ func (*ExtendedHeader).ChainID
 //@   property C16
 //@   ensures result == eh.RawHeader.ChainID
